@@ -81,6 +81,8 @@ def gen_knobs(rng, prop, profile):
             keys[2] = dict(a, comment="")  # ... and the bare resource itself
         seen = set()
         keys = [k for k in keys if (k["scheme"], k["res"], k["comment"]) not in seen and not seen.add((k["scheme"], k["res"], k["comment"]))]
+    second = rng.random() < 0.35
+    is_module = None  # decided below; chain keys only make sense with the module-level API and a second cache
     sizes = sorted(res_sizes[k["res"]] + (4 if k["pp"] else 0) for k in keys)
     total = sum(sizes)
     cls = wchoice(rng, [(12, "tiny"), (30, "few"), (33, "half"), (25, "all")])
@@ -103,11 +105,18 @@ def gen_knobs(rng, prop, profile):
                           (30, {"policy": "pct", "d": rng.randint(1, 3)}),
                           (15, {"policy": "uniform"}),
                           (10, {"policy": "none"})])
+    api = "module" if rng.random() < 0.2 else "object"
+    if second and api == "module" and rng.random() < 0.7:
+        # some keys are obtained through the second cache (nested request on another cache of the process)
+        for kd in keys:
+            if kd["scheme"] == "sim" and "<<" not in kd["res"] and rng.random() < 0.4 and \
+                    ("chain", kd["res"], kd["comment"]) not in {(x["scheme"], x["res"], x["comment"]) for x in keys}:
+                kd["scheme"] = "chain"
     return {
         "keys": keys, "res_sizes": res_sizes, "max_bytes": int(max_bytes), "size_class": cls,
         "parallel": profile.get("parallel", rng.random() < 0.55),
         "allow_missing": rng.random() < 0.6,
-        "api": "module" if rng.random() < 0.2 else "object",
+        "api": api,
         "clock": {"policy": pol, "gran": gran},
         "atime": rng.choice(["strict", "relatime", "noatime"]),
         "listing": rng.choice(["sorted", "permuted"]),
@@ -117,7 +126,8 @@ def gen_knobs(rng, prop, profile):
         "evict_on_startup": rng.random() < 0.15,
         "val_style": wchoice(rng, [(60, "bool"), (20, "numpy"), (20, "int")]),
         "relative_path": rng.random() < 0.12,
-        "second_cache": rng.random() < 0.35,  # (module-level API only) a second named cache in the same process
+        "second_cache": second,  # (module-level API only) a second named cache in the same process
+        "other_max": int(max(sizes[-1] + 10, total * rng.choice([0.3, 0.6, 3.0]))),
         "tmp_other_device": rng.random() < 0.5,  # is the system temp directory on another file system?
         "tilde_path": rng.random() < 0.06,
         "ret_style": wchoice(rng, [(75, "true"), (25, "none")]),
